@@ -166,6 +166,18 @@ Definition verdicts (l : list float) : list nat :=
               map (fun p => px_check c b hull (fst p) (snd p)) (grid (k_H c) (k_W c))
   end.
 Definition check (l : list float) : bool := forallb (fun v => negb (Nat.eqb v 0)) (verdicts l).
+(* both answers from ONE evaluation of the per-pixel verdicts (the expensive part): (agreement, non-trivial) *)
+Definition check_nt (l : list float) : bool * bool :=
+  match dec_case l with
+  | None => (false, false)
+  | Some c =>
+    let vs := verdicts l in
+    let b := mk_blk (k_H c) (k_W c) (k_src c) (k_ref c) in
+    let nj := length (filter (fun p => jmask b (fst p) (snd p)) (grid (k_H c) (k_W c))) in
+    let n2 := length (filter (Nat.eqb 2) vs) in
+    (forallb (fun v => negb (Nat.eqb v 0)) vs,
+     (2 * n2 <=? nj)%nat && (1 <=? nj)%nat && (negb (k_kh c =? k_kw c)%Z || (nj <? Z.to_nat (k_H c * k_W c))%nat))
+  end.
 (* non-trivial: at least half of the jointly valid pixels gave an informative agreement, and there is a mask or h <> w *)
 Definition nontrivial (l : list float) : bool :=
   match dec_case l with
